@@ -252,6 +252,7 @@ class Parser(AttrParser):
                     [(original_definition, None)],
                 )
             self.forward_block_references.pop(name)
+            self.blocks[name] = (block, name_token.span)
 
         # Don't set name_hint for blocks that match the default pattern, or whose
         # label (e.g. `^0`) is not a valid name hint
